@@ -731,11 +731,15 @@ theorem interior (ie : Nat) (st : HSt) (op : HOp) (j : Nat) (hi : HInv st) (hv :
             DCmd.setSess c (sessHash s)])).sess = (st.g c).sess := by
           have : j = 1 ∨ j = 2 ∨ j = 3 := by omega
           rcases this with h | h | h <;> subst h <;> simp [cstep, DClient.step]
-        simp only [cview, hsame]
-        split
-        · rename_i s' hs'
-          exact absurd hs' (hne s')
-        · rfl
+        have hgoal : cview (cstep (st.g c) (List.take j [DCmd.delKey Fam.sub c, DCmd.delKey Fam.queue c, DCmd.delKey Fam.unack c,
+            DCmd.setSess c (sessHash s)])) = none := by
+          unfold cview
+          rw [hsame]
+          split
+          · rename_i s' hs'
+            exact absurd hs' (hne s')
+          · rfl
+        exact hgoal
   | terminate c =>
     simp only [HOp.cid, Interior]
     simp only [HOp.cmds, HOp.run, removalCmds, List.length_cons, List.length_nil] at hj ⊢
